@@ -83,6 +83,7 @@ func (e *Exec) callCommon(s *State, ins ssa.Instruction, c *ssa.CallCommon, args
 		}
 	}
 	if callee == nil {
+		e.bumpAlloc(s)
 		e.logAbs("call through a function value: assumed not to touch state under contract")
 		e.v.noteTrusted("function values / callbacks are assumed not to touch state under contract")
 		if t := resultType(c); t != nil {
@@ -159,6 +160,7 @@ func (e *Exec) callFunc(s *State, ins ssa.Instruction, callee *ssa.Function, arg
 		return e.applyContract(s, ins, fc, callee.Signature, callee, args, pos)
 	}
 	if e.v.db.NoEffect[full] || e.v.db.NoEffect[shortFuncName(full)] || e.v.noEffectPkg(callee) {
+		e.bumpAlloc(s)
 		if t := sigResult(callee.Signature); t != nil {
 			return e.resultFresh(s, shortFuncName(full), t)
 		}
@@ -167,10 +169,22 @@ func (e *Exec) callFunc(s *State, ins ssa.Instruction, callee *ssa.Function, arg
 	// unknown callee: havoc everything
 	e.logAbs("call to %s without contract: all heaps havocked, results unconstrained", shortFuncName(full))
 	e.havocAllHeaps(s)
+	e.bumpAlloc(s)
 	if t := sigResult(callee.Signature); t != nil {
 		return e.freshValue(s, "call_"+callee.Name(), t)
 	}
 	return nil
+}
+
+// bumpAlloc: a call may allocate; references handed back may be at or above the caller's counter.
+func (e *Exec) bumpAlloc(s *State) {
+	nb := TS.Fresh("allocbase", "Int")
+	s.assume(App(">=", "Bool", nb, e.allocTerm(s)))
+	allocLower[nb] = struct {
+		prev *Node
+		n    int
+	}{s.allocBase, s.allocN}
+	s.allocBase, s.allocN = nb, 0
 }
 
 func (e *Exec) resultFresh(s *State, name string, t types.Type) Value {
@@ -249,6 +263,8 @@ func (e *Exec) havocAllHeaps(s *State) {
 			s.heaps[sv.name] = Store(h, sv.ref, sv.val)
 		}
 	}
+	epochCounter++
+	s.epoch = epochCounter
 	e.havocAll = true
 }
 
@@ -277,24 +293,23 @@ func (e *Exec) inlineCall(s *State, callee *ssa.Function, args []Value, pure boo
 	for i, fvv := range callee.FreeVars {
 		sub.regs[fvv] = args[len(callee.Params)+i]
 	}
-	// run on the caller's state (shares heaps)
+	// run on the caller's state (shares heaps); path conditions inside the callee are kept relative
+	// to its entry so that the merged result does not drag the caller's whole path condition along
 	st := s.clone()
 	st.defers = nil
-	heldBefore := len(st.held)
-	_ = heldBefore
+	st.pc = tTrue
 	ret := sub.run(st)
 	if ret == nil {
 		e.unsupported("inlined function %s does not return", callee.Name())
 	}
-	// copy back heap & pc & alloc
 	if len(keepPC) > 0 && !keepPC[0] {
 		// specification context: nothing leaks
 	} else if pure {
-		// pure: state unchanged except path facts
-		s.pc = ret.pc
+		// pure: state unchanged except facts learned inside
+		s.pc = And(s.pc, ret.pc)
 		s.allocBase, s.allocN = ret.allocBase, ret.allocN
 	} else {
-		s.pc = ret.pc
+		s.pc = And(s.pc, ret.pc)
 		s.heaps = ret.heaps
 		s.ghost = ret.ghost
 		s.allocBase, s.allocN = ret.allocBase, ret.allocN
@@ -375,6 +390,8 @@ func (e *Exec) applyContract(s *State, ins ssa.Instruction, fc *FuncContract, si
 			e.havocTarget(s, pre, m, vars, fc)
 		}
 	}
+	// the callee may have allocated: objects it returns may be new
+	e.bumpAlloc(s)
 	// results
 	var res []Value
 	var resT []types.Type
@@ -451,7 +468,13 @@ func (e *Exec) havocTarget(s, pre *State, m string, vars map[string]specVar, fc 
 	case strings.HasPrefix(m, "H:") || strings.HasPrefix(m, "A:") || strings.HasPrefix(m, "G:") || strings.HasPrefix(m, "M:"):
 		sortS, ok := e.heapSorts[m]
 		if !ok {
-			return
+			// not touched yet in this activation: it still has to be havocked, otherwise later reads
+			// would see the pre-call contents
+			sortS = e.sortForHeapName(m)
+			if sortS == "" {
+				e.unsupported("modifies %s: cannot determine the sort of this heap", m)
+			}
+			e.heap(s, m, sortS)
 		}
 		e.setHeap(s, m, TS.Fresh("mod_"+m, sortS))
 	case strings.HasSuffix(m, "[*]"):
@@ -871,6 +894,7 @@ func (e *Exec) invoke(s *State, ins ssa.Instruction, c *ssa.CallCommon, args []V
 	}
 	e.logAbs("interface method call %s without contract: all heaps havocked", key)
 	e.havocAllHeaps(s)
+	e.bumpAlloc(s)
 	if t := sigResult(sig); t != nil {
 		return e.freshValue(s, "inv_"+c.Method.Name(), t)
 	}
@@ -910,3 +934,53 @@ func (e *Exec) sendInstr(s *State, x *ssa.Send) {
 }
 
 func (e *Exec) chanSendSite(s *State, x *ssa.Send) {}
+
+// sortForHeapName derives the SMT sort of a heap from its name (G:Owner.field, A:<elem>[.path],
+// H:<pkg.T>.path).
+func (e *Exec) sortForHeapName(name string) string {
+	switch {
+	case strings.HasPrefix(name, "G:"):
+		if gf, ok := e.v.db.Ghost[name[2:]]; ok {
+			return e.ghostHeapSort(gf, "Iface")
+		}
+	case strings.HasPrefix(name, "A:"), strings.HasPrefix(name, "H:"):
+		rest := name[2:]
+		isArr := name[0] == 'A'
+		// basic element type
+		for _, bt := range types.Typ {
+			if bt != nil && typeKey(bt) == rest {
+				ls := e.mode.leafSort(bt)
+				if isArr {
+					return arraySort(RefSort, arraySort(e.mode.idxSort(), ls))
+				}
+				return arraySort(RefSort, ls)
+			}
+		}
+		// pkg.T.path
+		for _, sp := range e.v.prog.AllPackages() {
+			pfx := sp.Pkg.Name() + "."
+			if !strings.HasPrefix(rest, pfx) {
+				continue
+			}
+			r2 := rest[len(pfx):]
+			tn := r2
+			path := ""
+			if i := strings.IndexAny(r2, ".#"); i >= 0 {
+				tn, path = r2[:i], r2[i:]
+			}
+			obj, ok := sp.Pkg.Scope().Lookup(tn).(*types.TypeName)
+			if !ok {
+				continue
+			}
+			for _, li := range e.mode.leaves(obj.Type()) {
+				if li.Path == path {
+					if isArr {
+						return arraySort(RefSort, arraySort(e.mode.idxSort(), li.Sort))
+					}
+					return arraySort(RefSort, li.Sort)
+				}
+			}
+		}
+	}
+	return ""
+}
